@@ -21,7 +21,7 @@ LEVEL_TEXT = (
     "(i) 1-3 tasks x up to 8 operations get/set/delete/clear/len/keys over 4 keys on RecentlyUsedContainer(maxsize 0-3) with a recording dispose callback and a simulated re-entrant "
     "lock, pre-empted at every line of _collections.py: each recorded history (invoke/return stamped with the global event number) must linearize against a sequential LRU model, "
     "dispose exactly once per evicted/replaced/deleted/cleared value and never under the lock. (ii) 2-3 tasks doing connection_from_url/request/clear on PoolManager(num_pools 1-2) "
-    "over the simulated network, some holding a streaming response across an eviction. (iii) single caller, exhaustive: every operation sequence of length <= 4 (quick) / <= 5 (thorough) over the "
+    "over the simulated network, some holding a streaming response across an eviction. (iii) single caller, exhaustive: every operation sequence of length <= 5 (quick) / <= 6 (thorough) over the "
     "15-operation alphabet and maxsize 0-3 is run against the model operation by operation. Sampling of interleavings; histories kept short so the search is exact."
 )
 LEVEL_NOTE = "trusted: the sequential LRU model and the linearizability search in this module; SimRLock semantics (= threading.RLock for acquire/release); line-granularity pre-emption"
@@ -122,7 +122,7 @@ def gen_pm(rng):
 
 # alphabet of the exhaustive single-caller stratum: 4 keys x (set, get, delete) + clear, len, keys = 15 operations
 ALPHA = [("set", k) for k in KEYS] + [("get", k) for k in KEYS] + [("delete", k) for k in KEYS] + [("clear", None), ("len", None), ("keys", None)]
-ENUM_LEN = {"quick": 4, "thorough": 5}
+ENUM_LEN = {"quick": 5, "thorough": 6}
 
 
 def cases(seed, k, tier):
